@@ -31,6 +31,7 @@ theorem mem_ackNew {s : Shard} {u : Upd} {op : Op} {ok : Bool} (h : u ∈ ackNew
     ∃ us, op = .append s us ∧ ok = true ∧ u ∈ us := by
   cases op with
   | flush s' => simp [ackNew] at h
+  | compactOnly s' => simp [ackNew] at h
   | append s' us =>
     cases ok with
     | false => simp [ackNew] at h
@@ -339,6 +340,78 @@ theorem flushEnter_inv {cfg : Cfg} {st : State} {t : Tid} {op : Op} {rest : List
         refine inv_flushCoarse h ht htodo hpc hl (hz (by simpa using hfine) (by simpa using hpres) ?_)
         intro he; rw [he] at hbuf; simp at hbuf
 
+theorem insertBy_perm {α} (le : α → α → Bool) (x : α) : ∀ l : List α, (insertBy le x l).Perm (x :: l) := by
+  intro l
+  induction l with
+  | nil => exact List.Perm.refl _
+  | cons y ys ih =>
+    unfold insertBy
+    split
+    · exact List.Perm.refl _
+    · exact ((List.Perm.cons y ih).trans (List.Perm.swap x y ys))
+
+theorem sortBy_perm {α} (le : α → α → Bool) : ∀ l : List α, (sortBy le l).Perm l := by
+  intro l
+  induction l with
+  | nil => exact List.Perm.refl _
+  | cons a l ih =>
+    simp only [sortBy, List.foldr_cons]
+    exact (insertBy_perm le a _).trans (List.Perm.cons a ih)
+
+/-- the single batch a compaction writes holds the same updates as the batches it replaces -/
+theorem compacted_perm (bs : List (List Upd)) :
+    (List.flatten (if bs.flatten.isEmpty then [] else [compactList bs.flatten])).Perm bs.flatten := by
+  split
+  · rename_i h; simp only [List.flatten_nil]; rw [List.isEmpty_iff.mp h]
+  · simp only [List.flatten_cons, List.flatten_nil, List.append_nil]; exact sortBy_perm _ _
+
+/-- compaction: the batches of `s` are replaced by one consolidated batch; buffer, WAL and lock untouched -/
+theorem inv_compact {st : State} {t : Tid} {s : Shard} {rest : List Op} (h : Inv st) (ht : t < st.n)
+    (htodo : (st.threads t).todo = .compactOnly s :: rest) (hpc : (st.threads t).pc = .start) :
+    Inv { st with shards := setShard st.shards s { st.shards s with batches := if (st.shards s).batches.flatten.isEmpty then [] else [compactList (st.shards s).batches.flatten] },
+                  threads := setThread st.threads t ((st.threads t).finish true) } := by
+  have hf := finish_todo _ _ _ true htodo
+  have mono : ∀ s' u, StoredIn st.shards s' u → StoredIn (setShard st.shards s { st.shards s with batches := if (st.shards s).batches.flatten.isEmpty then [] else [compactList (st.shards s).batches.flatten] }) s' u := by
+    intro s' u hu
+    unfold StoredIn at hu ⊢
+    by_cases hs : s' = s
+    · subst hs; simp only [setShard_same]
+      rcases hu with hu | hu
+      · exact Or.inl hu
+      · exact Or.inr ((compacted_perm _).mem_iff.mpr hu)
+    · simp only [setShard_other _ _ hs]; exact hu
+  constructor
+  · intro i s' us' rest' hi hpc' htd
+    by_cases hit : i = t
+    · subst hit; simp only [setThread_same] at hpc'; rw [hf.2] at hpc'; cases hpc'
+    · simp only [setThread_other _ _ hit] at hpc' htd; exact h.mid i s' us' rest' hi hpc' htd
+  · intro s' u hu
+    by_cases hs : s' = s
+    · subst hs; simp only [setShard_same] at hu; exact h.buf s' u hu
+    · simp only [setShard_other _ _ hs] at hu; exact h.buf s' u hu
+  · intro i s' us' rest' hi htd hpc' u hu
+    by_cases hit : i = t
+    · subst hit; simp only [setThread_same] at hpc'; rw [hf.2] at hpc'
+      rcases hpc' with ⟨b, hb⟩ | hb <;> cases hb
+    · simp only [setThread_other _ _ hit] at hpc' htd; exact mono s' u (h.pushed i s' us' rest' hi htd hpc' u hu)
+  · intro i s' u hi hu
+    by_cases hit : i = t
+    · subst hit; simp only [setThread_same] at hu
+      rw [ackedOf_finish _ _ _ _ htodo] at hu
+      rcases List.mem_append.mp hu with hu1 | hu2
+      · exact mono s' u (h.ack i s' u hi hu1)
+      · simp [ackNew] at hu2
+    · simp only [setThread_other _ _ hit] at hu; exact mono s' u (h.ack i s' u hi hu)
+  · intro i hi hpc'
+    by_cases hit : i = t
+    · subst hit; simp only [setThread_same] at hpc'; rw [hf.2] at hpc'; cases hpc'
+    · simp only [setThread_other _ _ hit] at hpc' ⊢
+      obtain ⟨h1, op, rest', h2, h3⟩ := h.hold i hi hpc'
+      refine ⟨h1, op, rest', h2, ?_⟩
+      by_cases hs : opShard op = s
+      · rw [hs]; simp only [setShard_same]; rw [← hs]; exact h3
+      · simp only [setShard_other _ _ hs]; exact h3
+
 /-- every enabled, non-hazardous step preserves the invariant -/
 theorem step_inv {cfg : Cfg} {st st' : State} {t : Tid} (h : Inv st) (hs : step cfg st t = .ok st')
     (hz : hazard cfg st t = false) : Inv st' := by
@@ -373,6 +446,15 @@ theorem step_inv {cfg : Cfg} {st st' : State} {t : Tid} (h : Inv st) (hs : step 
             simp [rewritesWalOf, htn, htodo, hpc, hfine, hl']
             exact ⟨by simpa [opShard] using hpres, by simpa [opShard] using hbuf⟩
           exact hazard_false_mid hr hz
+      | compactOnly s =>
+        simp only [step, htn, htodo, hpc, if_false] at hs
+        split at hs
+        · cases hs
+        · split at hs
+          · cases hs
+            exact inv_finish h ht htodo (by rw [hpc]; simp) (by intro _ _ he; cases he)
+          · cases hs
+            exact inv_compact h ht htodo hpc
     | appAfterWal =>
       cases op with
       | append s us =>
@@ -383,6 +465,7 @@ theorem step_inv {cfg : Cfg} {st st' : State} {t : Tid} (h : Inv st) (hs : step 
           cases hs
           exact inv_push h ht htodo hpc (lock_none_of hl) htodo.symm rfl rfl rfl rfl
       | flush s => simp [step, htn, htodo, hpc] at hs
+      | compactOnly s => simp [step, htn, htodo, hpc] at hs
     | appAfterBuf b =>
       cases op with
       | append s us =>
@@ -407,6 +490,7 @@ theorem step_inv {cfg : Cfg} {st st' : State} {t : Tid} (h : Inv st) (hs : step 
               simpa [opShard] using hbuf
             exact hazard_false_mid hr hz
       | flush s => cases b <;> simp [step, htn, htodo, hpc] at hs
+      | compactOnly s => cases b <;> simp [step, htn, htodo, hpc] at hs
     | flushHold =>
       simp only [step, htn, htodo, hpc, if_false] at hs
       cases hs
@@ -492,7 +576,7 @@ theorem served_flushEnter (cfg : Cfg) (st : State) (t : Tid) (th : Thread) (s s'
         · simp [setShard_other _ _ hs]
 
 theorem served_step {cfg : Cfg} {st st' : State} {t : Tid} (hs : step cfg st t = .ok st') (s : Shard) :
-    served st' s = served st s ++ pushOf st t s := by
+    (served st' s).Perm (served st s ++ pushOf st t s) := by
   by_cases htn : t ≥ st.n
   · simp [step, htn] at hs
   cases htodo : (st.threads t).todo with
@@ -503,12 +587,26 @@ theorem served_step {cfg : Cfg} {st st' : State} {t : Tid} (hs : step cfg st t =
       cases op with
       | append s' us =>
         simp only [step, htn, htodo, hpc, if_false] at hs
-        split at hs <;> cases hs <;> simp [served, pushOf, htn, htodo, hpc]
+        split at hs <;> cases hs <;> refine List.Perm.of_eq ?_ <;> simp [served, pushOf, htn, htodo, hpc]
       | flush s' =>
         simp only [step, htn, htodo, hpc, if_false] at hs
         split at hs
         · cases hs
-        · cases hs; simp [served_flushEnter, pushOf, htn, htodo, hpc]
+        · cases hs; refine List.Perm.of_eq ?_; simp [served_flushEnter, pushOf, htn, htodo, hpc]
+      | compactOnly s' =>
+        simp only [step, htn, htodo, hpc, if_false] at hs
+        split at hs
+        · cases hs
+        · split at hs
+          · cases hs; refine List.Perm.of_eq ?_; simp [served, pushOf, htn, htodo, hpc]
+          · cases hs
+            have hp : pushOf st t s = [] := by simp [pushOf, htn, htodo, hpc]
+            rw [hp, List.append_nil]
+            unfold served
+            by_cases he : s = s'
+            · subst he; simp only [setShard_same]
+              exact (compacted_perm _).append_right _
+            · simp only [setShard_other _ _ he]; exact List.Perm.refl _
     | appAfterWal =>
       cases op with
       | append s' us =>
@@ -516,27 +614,30 @@ theorem served_step {cfg : Cfg} {st st' : State} {t : Tid} (hs : step cfg st t =
         split at hs
         · cases hs
         · cases hs
+          refine List.Perm.of_eq ?_
           by_cases he : s = s'
           · subst he; simp [served, pushOf, htn, htodo, hpc, setShard_same]
           · have he' : ¬ s' = s := fun h => he h.symm
             simp [served, pushOf, htn, htodo, hpc, setShard_other _ _ he, he']
       | flush s' => simp [step, htn, htodo, hpc] at hs
+      | compactOnly s' => simp [step, htn, htodo, hpc] at hs
     | appAfterBuf b =>
       cases op with
       | append s' us =>
         cases b with
         | false =>
           simp only [step, htn, htodo, hpc, if_false] at hs
-          cases hs; simp [served, pushOf, htn, htodo, hpc]
+          cases hs; refine List.Perm.of_eq ?_; simp [served, pushOf, htn, htodo, hpc]
         | true =>
           simp only [step, htn, htodo, hpc, if_false] at hs
           split at hs
           · cases hs
-          · cases hs; simp [served_flushEnter, pushOf, htn, htodo, hpc]
+          · cases hs; refine List.Perm.of_eq ?_; simp [served_flushEnter, pushOf, htn, htodo, hpc]
       | flush s' => cases b <;> simp [step, htn, htodo, hpc] at hs
+      | compactOnly s' => cases b <;> simp [step, htn, htodo, hpc] at hs
     | flushHold =>
       simp only [step, htn, htodo, hpc, if_false] at hs
-      cases hs; simp [served, pushOf, htn, htodo, hpc]
+      cases hs; refine List.Perm.of_eq ?_; simp [served, pushOf, htn, htodo, hpc]
 
 /-- concatenation of the appended batches of shard `s`, in the order of their buffer sections -/
 def linearized (cfg : Cfg) : State → List Tid → Shard → List Upd
@@ -548,14 +649,18 @@ def linearized (cfg : Cfg) : State → List Tid → Shard → List Upd
     | .blocked => []
 
 theorem served_linearized (cfg : Cfg) : ∀ (sched : List Tid) (st : State) (s : Shard),
-    served (lastState cfg st sched) s = served st s ++ linearized cfg st sched s := by
+    (served (lastState cfg st sched) s).Perm (served st s ++ linearized cfg st sched s) := by
   intro sched
   induction sched with
   | nil => intro st s; simp [lastState, linearized]
   | cons t ts ih =>
     intro st s
     cases hs : step cfg st t with
-    | ok st' => simp only [lastState, linearized, hs]; rw [ih, served_step hs, List.append_assoc]
+    | ok st' =>
+      simp only [lastState, linearized, hs]
+      refine (ih st' s).trans ?_
+      rw [← List.append_assoc]
+      exact (served_step hs s).append_right _
     | skip => simp only [lastState, linearized, hs]; exact ih st s
     | blocked => simp [lastState, linearized, hs]
 
